@@ -201,10 +201,10 @@ def pick_text(rng, bg, thr, band):
 ALL_FEATURES = (
     "vars", "var-fallback", "var-undefined", "var-chain", "var-shared", "root-direct-color", "root-and-html",
     "important", "repeat-decl", "prop-case", "nesting", "bg-var", "keywords", "opaque-atrules", "vendor-hacks",
-    "star-hack", "non-ascii", "crlf", "bom", "cdo-cdc", "alpha-text", "comments", "no-color-rules", "odd-strings", "dup-root", "nested-root",
+    "star-hack", "non-ascii", "crlf", "bom", "cdo-cdc", "alpha-text", "comments", "no-color-rules", "odd-strings", "dup-root", "nested-root", "unicode-seps",
 )
 # features outside what the reference cascade of C08 models or what C08's statement quantifies over
-C09_ONLY = ("opaque-atrules", "vendor-hacks", "star-hack", "crlf", "bom", "cdo-cdc", "odd-strings", "dup-root", "nested-root")
+C09_ONLY = ("opaque-atrules", "vendor-hacks", "star-hack", "crlf", "bom", "cdo-cdc", "odd-strings", "dup-root", "nested-root", "unicode-seps")
 
 _SEL_FORMS = (".r%d", "#id%d", "a.x%d:hover", "div > p.k%d", "[data-x=\"%d\"]", "ul li.i%d", "h%d")
 _SEL_FORMS_NONASCII = (".r\u00e9%d", ".\u4e2d%d", "#\u00fc%d")
@@ -237,6 +237,11 @@ _VENDOR_DECLS = (
     "width: 100px\\9", "zoom: 1", "-ms-filter: \"alpha(opacity=50)\"", "-webkit-tap-highlight-color: rgba(0,0,0,0)",
 )
 _STAR_DECLS = ("*zoom: 1", "*display: inline")
+# code points that str.splitlines() / some regexes treat as line breaks but CSS does not
+_USEP_DECLS = ("content: \"a\u2028b\"", "content: 'x\u2029y'", "content: \"\u0085\"", "quotes: \"\u001e\" \"\u001c\"", "font-family: \"A\u000bB\"",
+               "background: url(\"a\u2028b.png\")", "--note: a\u2028b")
+_USEP_COMMENTS = ("/* line\u2028sep */", "/*\u0085*/", "/* a\u2029b\u001dc */")
+_USEP_SELS = (".caf\u00e9\u2028bar%d", ".u\u2029x%d")
 _IMPORTANT_FORMS = (" !important", "!important", " ! important", " !IMPORTANT")
 
 
@@ -268,7 +273,7 @@ class SheetGen:
     # -- helpers
     def selector(self):
         self.nsel += 1
-        forms = _SEL_FORMS + (_SEL_FORMS_NONASCII if "non-ascii" in self.feats else ())
+        forms = _SEL_FORMS + (_SEL_FORMS_NONASCII if "non-ascii" in self.feats else ()) + (_USEP_SELS if "unicode-seps" in self.feats else ())
         f = self.rng.choice(forms)
         n = self.nsel
         if f == "h%d":
@@ -346,12 +351,20 @@ class SheetGen:
         if "important" in f and r.random() < 0.4:
             tgt = r.choice([cd] + extra)
             tgt["imp"] = self.imp()
+            if extra and r.random() < 0.4:  # several !important declarations of the same property: the last one wins
+                for x in [cd] + extra:
+                    x["imp"] = self.imp()
             if bgd and r.random() < 0.3:
                 bgd["imp"] = self.imp()
         cds = [cd] + extra
         r.shuffle(cds)
-        if bgd and "repeat-decl" in f and r.random() < 0.15:
-            decls.append({"p": "background-color", "v": self.literal(rand_rgb(r)), "imp": ""})
+        if bgd and "repeat-decl" in f and r.random() < 0.25:
+            other_bg = {"p": "background-color", "v": self.literal(rand_rgb(r)), "imp": ""}
+            if "important" in f and r.random() < 0.5:
+                other_bg["imp"] = self.imp()
+                if r.random() < 0.6:
+                    bgd["imp"] = self.imp()
+            decls.append(other_bg)
         parts = cds + ([bgd] if bgd else [])
         r.shuffle(parts)
         decls += parts
@@ -364,7 +377,9 @@ class SheetGen:
         n = r.choice((0, 0, 1, 1, 2, 3))
         for _ in range(n):
             m = r.random()
-            if "comments" in f and m < 0.25:
+            if "unicode-seps" in f and r.random() < 0.35:
+                d = {"raw": r.choice(_USEP_COMMENTS)} if r.random() < 0.35 else {"rawdecl": r.choice(_USEP_DECLS)}
+            elif "comments" in f and m < 0.25:
                 d = {"raw": r.choice(_COMMENTS)}
             elif "odd-strings" in f and m < 0.45:
                 d = {"rawdecl": r.choice(_ODD_DECLS)}
@@ -471,6 +486,8 @@ class SheetGen:
         extra = []
         if "comments" in f:
             extra += [{"t": "raw", "text": r.choice(_COMMENTS)} for _ in range(r.randrange(3))]
+        if "unicode-seps" in f:
+            extra += [{"t": "raw", "text": r.choice(_USEP_COMMENTS)} for _ in range(r.randrange(2))]
         if "opaque-atrules" in f:
             extra += [{"t": "raw", "text": r.choice(_OPAQUE_BLOCKS)} for _ in range(r.randrange(3))]
             extra += [{"t": "raw", "text": r.choice(_OPAQUE_STMTS), "top": True} for _ in range(r.randrange(2))]
